@@ -50,12 +50,14 @@ func NewClientServerStream(ctx context.Context) *ClientServerStream {
 }
 
 func (s *ClientServerStream) Close(err error) {
-	// headers that were set but never sent travel with the end of the stream, as in gRPC
-	_ = (&serverStream{s}).SendHeader(nil)
-	s.closeErr = handlerErr(err)
 	// a caller that had given up before the handler answered hears of its own cancellation or deadline, as over a
 	// connection, where the call is finished on the client side the moment its context ends
 	s.abandoned = s.callerCtx.Err() != nil
+	if !s.abandoned {
+		// headers that were set but never sent travel with the end of the stream, as in gRPC
+		_ = (&serverStream{s}).SendHeader(nil)
+	}
+	s.closeErr = handlerErr(err)
 	close(s.closedC)
 	close(s.serverSend)
 	s.closed()
@@ -132,7 +134,16 @@ func (c *clientStream) Header() (metadata.MD, error) {
 }
 
 func (c *clientStream) Trailer() metadata.MD {
-	// the handler may still be running (and setting trailers) when the caller gave up on the call
+	// trailers travel with the status at the end of the call: a caller that gave up on the call before that never
+	// receives any, whatever the handler (which may still be running) has set so far
+	select {
+	case <-c.closedC:
+		if c.abandoned {
+			return nil
+		}
+	default:
+		return nil
+	}
 	c.headerM.Lock()
 	defer c.headerM.Unlock()
 	return c.trailer.Copy()
@@ -251,6 +262,10 @@ func (s *serverStream) SendHeader(md metadata.MD) error {
 	case <-s.headerC:
 		return errors.New("headers already sent")
 	default:
+	}
+	if err := s.callerCtx.Err(); err != nil {
+		// the caller has given up on the call: nothing reaches it any more
+		return err
 	}
 	s.header = metadata.Join(s.header, md)
 	close(s.headerC)
